@@ -23,6 +23,12 @@ Pure `ast` over every module of src/datamodel_code_generator. The analysis is de
     `lambda v: (v.name, v.as_posix())` for any parameter name v — the tuple's second component is the entry itself, so the key is
     injective), `other` (anything else, including `lambda p: p.name` of the code before the repair of C08-basename, a key with
     defaults / several parameters, a named function). Only the first two shapes are accepted by Props/C08.listingOK.
+(f) cwdSites: every place the source consults (or changes) the PROCESS'S WORKING DIRECTORY: `Path.cwd()`, `os.getcwd()`,
+    `os.getcwdb()`, `os.chdir()`, `os.path.abspath/realpath`, `<path>.absolute()`, `<path>.resolve()` (a relative path is completed
+    with the working directory), and every child process started without `cwd=` (`subprocess.run/Popen/call/check_call/
+    check_output`, `os.system`, `os.popen`: the child inherits the directory and discovers its configuration from it) — with
+    file, function and the source text of the called expression. Each must be on the reviewed list of Model/Determinism
+    (inside `with chdir(output)`, input location, saved-and-restored, CLI layer): Props/C08.cwd_reads_reviewed.
 (d) memoClasses / memoValueWrites: the package classes whose INSTANCES are shared process-wide — returned by a memoised function
     (`Import.from_full_path -> Import`) or bound to a module-level name (`IMPORT_DATE = Import.from_full_path(...)`) — with their
     declared fields, and every statement that stores to (or deletes) an attribute with one of those field names, or calls
@@ -621,6 +627,45 @@ def listing_sites() -> list[ListingSite]:
     return out
 
 
+CWD_CALLS = {"cwd", "getcwd", "getcwdb", "chdir", "fchdir", "abspath", "realpath", "absolute", "resolve"}
+CHILD_CALLS = {"run", "Popen", "call", "check_call", "check_output", "system", "popen", "getoutput", "getstatusoutput"}
+CHILD_OWNERS = {"subprocess", "os"}
+
+
+def cwd_sites() -> list[tuple[str, str, str]]:
+    """(file, function, called expression) of every call that reads or sets the process's working directory, or starts a
+    child process that inherits it (no `cwd=` keyword); source order, duplicates kept once per (file, function, call)"""
+    out: list[tuple[str, str, str, int]] = []
+    for p in _files():
+        file = str(p.relative_to(SRC))
+        tree = ast.parse(p.read_text())
+
+        def visit(node, scope):
+            for ch in ast.iter_child_nodes(node):
+                sc = [*scope, ch.name] if isinstance(ch, (ast.FunctionDef, ast.AsyncFunctionDef, ast.ClassDef)) else scope
+                if isinstance(ch, ast.Call):
+                    fn = ch.func
+                    name = fn.attr if isinstance(fn, ast.Attribute) else fn.id if isinstance(fn, ast.Name) else ""
+                    owner = fn.value.id if isinstance(fn, ast.Attribute) and isinstance(fn.value, ast.Name) else ""
+                    hit = False
+                    if name in CWD_CALLS and (isinstance(fn, ast.Attribute) or name in ("getcwd", "getcwdb", "chdir", "abspath", "realpath")):
+                        hit = not (isinstance(fn, ast.Name) and name == "chdir")   # the package's own context manager `chdir(...)`
+                    elif name in CHILD_CALLS and (owner in CHILD_OWNERS or isinstance(fn, ast.Name) and name in ("Popen", "check_output", "check_call")):
+                        hit = not any(kw.arg == "cwd" for kw in ch.keywords)
+                    if hit:
+                        out.append((file, ".".join(scope) or "<module>", ast.unparse(fn), ch.lineno))
+                visit(ch, sc)
+
+        visit(tree, [])
+    out.sort(key=lambda s: (s[0], s[3], s[2]))
+    seen, res = set(), []
+    for f, fn, c, _ in out:
+        if (f, fn, c) not in seen:
+            seen.add((f, fn, c))
+            res.append((f, fn, c))
+    return res
+
+
 def analyse() -> tuple[list[Site], list[CacheSite], list[ClassMutable]]:
     trees = {str(p.relative_to(SRC)): ast.parse(p.read_text()) for p in _files()}
     facts = _collect_facts(trees)
@@ -795,6 +840,12 @@ def generate() -> str:
         "argument of `sorted(`, with which `key=` (source text; empty = natural total order of the entries) and the shape of that\n"
         "key as classified by the translator (natural | basename-then-path | other) -/\n"
         "def listingSites : List ListingSite :=\n  [" + ",\n   ".join(rows) + "]\n"
+    )
+    rows = [f"({k(f)}, {k(fn)}, {k(c)})" for f, fn, c in cwd_sites()]
+    out.append(
+        "/-- every call that reads or sets the process's working directory (Path.cwd, os.getcwd, os.chdir, abspath/realpath,\n"
+        ".absolute(), .resolve()) or starts a child process without `cwd=`: (file, function, called expression) -/\n"
+        "def cwdSites : List (Nat × Nat × Nat) :=\n  [" + ",\n   ".join(rows) + "]\n"
     )
     out.append("end Dcg.Gen.SetSites")
     return "\n".join(out) + "\n"
